@@ -1,7 +1,10 @@
 #!/bin/bash
-# usage: seed_batch.sh <prop>...   — validates and tries every /tmp/seed-<prop>/out/m* ; results appended to /tmp/seed_results.txt
+# usage: seed_batch.sh [-r <suffix>] <prop>...  — validates and tries every /tmp/seed<suffix>-<prop>/out/m* ;
+# results appended to /tmp/seed_results.txt (format: "<prop> <suffix>/<m>: <validation> || <detection>")
+SUF=""
+if [ "$1" = "-r" ]; then SUF=$2; shift 2; fi
 for PROP in "$@"; do
-  for D in /tmp/seed-$PROP/out/m*; do
+  for D in /tmp/seed$SUF-$PROP/out/m*; do
     [ -f $D/patch.diff ] || continue
     V=$(/verif/tools/validate_seed.sh $D 2>&1 | tail -1)
     R="-"
@@ -9,6 +12,6 @@ for PROP in "$@"; do
       R=$(/verif/tools/try_seed.sh $D/patch.diff $PROP quick 2>&1 | tail -1)
       case "$R" in MISSED*) R="$R | $(/verif/tools/try_seed.sh $D/patch.diff $PROP thorough 2>&1 | tail -1)";; esac ;;
     esac
-    echo "$PROP $(basename $D): $V || $R" | tee -a /tmp/seed_results.txt
+    echo "$PROP $SUF/$(basename $D): $V || $R" | tee -a /tmp/seed_results.txt
   done
 done
